@@ -137,6 +137,33 @@ pub fn run(ctx: &Ctx) -> Outcome {
                     }
                 }
             }
+            if shard == 1 {
+                // data chunks that LOOK like something else: the 16-byte configuration block of every sign type (and the
+                // same block with one byte changed, at other offsets, a byte longer or shorter), chunks that begin like
+                // a page header — a chunk is a chunk, whatever it carries
+                for block in refs::BLOCKS.iter() {
+                    for addr in [0u16, 16, 0x0100, 0xFFF0] {
+                        check_frame(addr, 0, &block[..], false, rep);
+                        check_frame(addr, 0, &block[..15], true, rep);
+                        let mut longer = block.to_vec();
+                        longer.push(0);
+                        check_frame(addr, 0, &longer, false, rep);
+                        for i in 0..16 {
+                            let mut b = block.to_vec();
+                            b[i] ^= 0x01;
+                            check_frame(addr, 0, &b, i % 2 == 0, rep);
+                            b[i] = 0xFF;
+                            check_frame(addr, 0, &b, i % 2 == 1, rep);
+                        }
+                        rep.count("config_like_chunks");
+                    }
+                }
+                for id in 0..=255u8 {
+                    let mut page = vec![id, 0x10, 0, 0];
+                    page.extend(std::iter::repeat(id).take(12));
+                    check_frame(0, 0, &page, id % 2 == 0, rep);
+                }
+            }
             if shard == 0 {
                 // every recognised code (and the same first byte under the neighbouring types) followed by 1..254
                 // further bytes: a code is a code at data length 1 only, whatever the longer length is congruent to
@@ -193,6 +220,7 @@ pub fn run(ctx: &Ctx) -> Outcome {
     });
 
     let mut floors = vec![
+        floor("data chunks carrying configuration blocks and page headers", report.get("config_like_chunks") == 44, report.get("config_like_chunks")),
         floor("every one-byte code followed by 1..254 further bytes", report.get("codes_at_longer_lengths") > 15_000, report.get("codes_at_longer_lengths")),
         floor("all 256 message types swept against all 256 first bytes", report.get("types_swept") == 256, report.get("types_swept")),
         floor("all 65536 addresses swept for every code", report.get("addresses_swept") == 65_536, report.get("addresses_swept")),
